@@ -212,10 +212,97 @@ fn find_payload(kind: &str, csize: usize, m4: usize) -> Option<Payload> {
     None
 }
 
+/// Messages by *varint width* of their 4-byte groups (1..5 packed bytes per group) and length class:
+/// `widx = (w - 1) * 3 + variant + 1`; variant 0: one constant value of that width, as many groups as
+/// the writer accepts (at most 16384 groups = 64 KiB, the reader's output buffer; packed form at most
+/// 65536 bytes; compressed form at most 65535 bytes); variant 1: pseudo-random values of that width,
+/// again the largest accepted length; variant 2: 1000 groups of pseudo-random values of that width.
+fn wide_values(w: usize, variant: usize, n: usize) -> Vec<i32> {
+    let lo: i64 = if w == 1 { 1 } else { 1i64 << (6 + 7 * (w - 2)) };
+    let hi: i64 = if w == 5 { i32::MAX as i64 } else { (1i64 << (6 + 7 * (w - 1))) - 1 };
+    if variant == 0 {
+        return vec![lo as i32; n];
+    }
+    let mut s: u64 = 0x1234_5678_9abc_def1 ^ ((w as u64) << 32) ^ variant as u64;
+    (0..n)
+        .map(|_| {
+            s ^= s << 13;
+            s ^= s >> 7;
+            s ^= s << 17;
+            let v = lo + ((s >> 11) as i64).rem_euclid(hi - lo + 1);
+            // negative values have the same width: -(v + 1) encodes like v
+            if s & 1 == 0 { v as i32 } else { (-(v + 1)) as i32 }
+        })
+        .collect()
+}
+fn wide_raw(vals: &[i32]) -> Vec<u8> {
+    let mut raw = Vec::with_capacity(vals.len() * 4);
+    for v in vals {
+        raw.extend_from_slice(&v.to_le_bytes());
+    }
+    raw
+}
+fn wide_fits(raw: &[u8]) -> bool {
+    match msg_prep(raw) {
+        Some(p) => p.len() <= 65536 && HUFFMAN.compressed_len(&p) <= 65535,
+        None => false,
+    }
+}
+fn wide_payload(widx: usize) -> Option<Payload> {
+    if widx == 0 || widx > 15 {
+        return None;
+    }
+    let (w, variant) = ((widx - 1) / 3 + 1, (widx - 1) % 3);
+    let maxn = if variant == 2 { 1000 } else { 16384 };
+    let vals = wide_values(w, variant, maxn);
+    // largest number of groups the writer accepts (prefixes of one value stream: monotone)
+    let (mut lo, mut hi) = (0usize, maxn);
+    while lo < hi {
+        let mid = (lo + hi + 1) / 2;
+        if wide_fits(&wide_raw(&vals[..mid])) {
+            lo = mid;
+        } else {
+            hi = mid - 1;
+        }
+    }
+    let raw = wide_raw(&vals[..lo]);
+    let prep = msg_prep(&raw)?;
+    if lo > 0 && prep.len() != lo * w {
+        return None; // the values do not have the intended width
+    }
+    let comp = HUFFMAN.compress_into_vec(&prep);
+    Some(Payload { raw, comp })
+}
+
 struct Payloads {
     cache: HashMap<(String, usize, usize), Option<Rc<Payload>>>,
+    wide: HashMap<usize, Option<Rc<Payload>>>,
 }
 impl Payloads {
+    fn new() -> Payloads {
+        Payloads { cache: HashMap::new(), wide: HashMap::new() }
+    }
+    fn get_wide(&mut self, widx: usize) -> Option<Rc<Payload>> {
+        if !self.wide.contains_key(&widx) {
+            self.wide.insert(widx, wide_payload(widx).map(Rc::new));
+        }
+        self.wide[&widx].clone()
+    }
+    /// payload of a `data` act: by width class when `w` > 0 (csize / m4 must be the achieved ones)
+    fn for_act(&mut self, a: &Value) -> Option<Rc<Payload>> {
+        let w = a["w"].as_u64().unwrap_or(0) as usize;
+        let csize = a["csize"].as_u64().unwrap_or(0) as usize;
+        let m4 = a["m4"].as_u64().unwrap_or(0) as usize;
+        if w > 0 {
+            let p = self.get_wide(w)?;
+            if p.comp.len() != csize || p.raw.len() % 4 != m4 {
+                return None;
+            }
+            Some(p)
+        } else {
+            self.get(a["kind"].as_str().unwrap_or(""), csize, m4)
+        }
+    }
     fn get(&mut self, kind: &str, csize: usize, m4: usize) -> Option<Rc<Payload>> {
         let key = (kind.to_string(), csize, m4);
         if !self.cache.contains_key(&key) {
@@ -227,7 +314,7 @@ impl Payloads {
 }
 
 fn cmd_classes(args: &[String]) {
-    let mut ps = Payloads { cache: HashMap::new() };
+    let mut ps = Payloads::new();
     let mut snap = Vec::new();
     let mut msg = Vec::new();
     let empty_snap = clen("snapshot", &[]);
@@ -250,7 +337,15 @@ fn cmd_classes(args: &[String]) {
             }
         }
     }
-    println!("{}", json!({"snap": snap, "msg": msg, "empty_snap": empty_snap, "empty_msg": empty_msg, "achieved": detail}));
+    let mut wide = Vec::new();
+    for widx in 1..=15usize {
+        if let Some(p) = ps.get_wide(widx) {
+            let (w, variant) = ((widx - 1) / 3 + 1, (widx - 1) % 3);
+            wide.push(json!({"widx": widx, "w": w, "variant": variant, "csize": p.comp.len(), "m4": p.raw.len() % 4,
+                "raw_len": p.raw.len(), "groups": p.raw.len() / 4, "packed_len": msg_prep(&p.raw).map(|x| x.len()).unwrap_or(0)}));
+        }
+    }
+    println!("{}", json!({"snap": snap, "msg": msg, "empty_snap": empty_snap, "empty_msg": empty_msg, "achieved": detail, "wide": wide}));
 }
 
 // ------------------------------------------------------------------ low level: Writer / Reader
@@ -332,9 +427,7 @@ fn exec_lo(plan: &[Value], ps: &mut Payloads) -> Vec<Value> {
             }
             "data" => {
                 let kind = a["kind"].as_str().unwrap_or("");
-                let p = ps
-                    .get(kind, a["csize"].as_u64().unwrap_or(0) as usize, a["m4"].as_u64().unwrap_or(0) as usize)
-                    .unwrap_or_else(|| panic!("harness: no payload for {}", a));
+                let p = ps.for_act(a).unwrap_or_else(|| panic!("harness: no payload for {}", a));
                 payload = Some(p.clone());
                 catch_unwind(AssertUnwindSafe(|| match kind {
                     "snapshot" => writer.write_snapshot(&p.raw),
@@ -513,7 +606,9 @@ fn make_msg(m: i64) -> Option<Game<'static>> {
                 Game::SvBroadcast(gmsg::SvBroadcast { message: &LONG_TEXT[..(m - 100) as usize] })
             } else if m >= 100_000 && m < 300_000 {
                 // a broadcast of (m - 100000) bytes: longer than the writer's 64 KiB buffer when large
-                let text: &'static [u8] = Box::leak(vec![b'a'; (m - 100_000) as usize].into_boxed_slice());
+                // one static text, allocated once (200 000 bytes), sliced to the requested length
+                static LONG_A: std::sync::OnceLock<Vec<u8>> = std::sync::OnceLock::new();
+                let text: &'static [u8] = &LONG_A.get_or_init(|| vec![b'a'; 200_000])[..(m - 100_000) as usize];
                 Game::SvBroadcast(gmsg::SvBroadcast { message: text })
             } else {
                 return None;
@@ -522,7 +617,7 @@ fn make_msg(m: i64) -> Option<Game<'static>> {
     })
 }
 fn msg_bytes(g: &Game) -> Vec<u8> {
-    let mut buf: Vec<u8> = Vec::with_capacity(4096);
+    let mut buf: Vec<u8> = Vec::with_capacity(70_000);
     with_packer(&mut buf, |p| g.encode(p).map(|_| ())).expect("harness: message encode");
     buf
 }
@@ -784,7 +879,9 @@ fn class_of(level: &str, act: &Value, exp: &Value, _prev: Option<&Value>) -> Str
         }
         ("lo", "data") => {
             let s = act["csize"].as_u64().unwrap_or(0);
-            format!("{}-{}", act["kind"].as_str().unwrap_or(""), if s < 30 { "size<30" } else if s <= 255 { "size<=255" } else { "size>255" })
+            let w = act["w"].as_u64().unwrap_or(0);
+            let wide = if w > 0 { format!("-width{}-{}", (w - 1) / 3 + 1, ["fill-max", "random-max", "random-1000"][((w - 1) % 3) as usize]) } else { String::new() };
+            format!("{}-{}{}", act["kind"].as_str().unwrap_or(""), if s < 30 { "size<30" } else if s <= 255 { "size<=255" } else { "size>255" }, wide)
         }
         ("hi", "snap") => {
             let r = exp["r"].as_str().unwrap_or("");
@@ -983,7 +1080,7 @@ fn cmd_graph(level: &str, args: &[String]) {
         let hs: Vec<_> = (0..threads.max(1))
             .map(|_| {
                 sc.spawn(move || {
-                    let mut ps = Payloads { cache: HashMap::new() };
+                    let mut ps = Payloads::new();
                     let mut s = Summary { paths: 0, steps: 0, nontrivial: 0, mismatch_count: 0, mismatch_keys: BTreeMap::new(), mismatches: Vec::new(), samples: Vec::new(), covered: 0, drift_count: 0, drift_keys: BTreeMap::new(), drift_examples: Vec::new() };
                     loop {
                         let t = nref.fetch_add(1, Ordering::Relaxed);
@@ -1064,7 +1161,7 @@ fn print_events(plan: &[Value], outs: &[Value]) {
 }
 
 fn cmd_run(level: &str) {
-    let mut ps = Payloads { cache: HashMap::new() };
+    let mut ps = Payloads::new();
     let stdin = io::stdin();
     for line in stdin.lock().lines() {
         let line = match line {
@@ -1085,7 +1182,7 @@ fn cmd_drive(level: &str, args: &[String]) {
     let seed: u64 = args[0].parse().unwrap();
     let runs: usize = args[1].parse().unwrap();
     let n: usize = args[2].parse().unwrap();
-    let mut ps = Payloads { cache: HashMap::new() };
+    let mut ps = Payloads::new();
     for r in 0..runs {
         let mut rng = StdRng::seed_from_u64(seed.wrapping_mul(7_000_003).wrapping_add(r as u64));
         let mut plan: Vec<Value> = Vec::new();
@@ -1112,10 +1209,18 @@ fn cmd_drive(level: &str, args: &[String]) {
                     let kind = ["snapshot", "delta", "message"][rng.gen_range(0..3)];
                     let csize: usize = match rng.gen_range(0..10) { 0 => 29, 1 => 30, 2 => 255, 3 => 256, 4 => rng.gen_range(1..40), 5 => rng.gen_range(200..300), 6 => rng.gen_range(1000..20000), _ => rng.gen_range(1..600) };
                     let m4 = if kind == "message" { rng.gen_range(0..4) } else { 0 };
+                    if rng.gen_range(0..12) == 0 {
+                        // a message by varint width class (long ones included)
+                        let widx = rng.gen_range(1..=15usize);
+                        if let Some(p) = ps.get_wide(widx) {
+                            plan.push(json!({"a":"data","kind":"message","id":id,"csize":p.comp.len(),"m4":p.raw.len() % 4,"w":widx}));
+                        }
+                        continue;
+                    }
                     if ps.get(kind, csize, m4).is_none() {
                         continue;
                     }
-                    plan.push(json!({"a":"data","kind":kind,"id":id,"csize":csize,"m4":m4}));
+                    plan.push(json!({"a":"data","kind":kind,"id":id,"csize":csize,"m4":m4,"w":0}));
                 }
             }
             let outs = exec_lo(&plan, &mut ps);
